@@ -25,6 +25,8 @@ package main
 import (
 	"math/rand"
 	"os"
+	"runtime/pprof"
+	"strings"
 
 	"verif/internal/vlib"
 )
@@ -54,10 +56,20 @@ func body(r *vlib.Run) {
 	if dn, err := os.OpenFile(os.DevNull, os.O_WRONLY, 0); err == nil && os.Getenv("C12_KEEP_GLOG") == "" {
 		os.Stderr = dn
 	}
+	if pf := os.Getenv("C12_CPUPROFILE"); pf != "" { // development aid
+		if f, err := os.Create(pf); err == nil {
+			pprof.StartCPUProfile(f)
+			defer pprof.StopCPUProfile()
+		}
+	}
 	installGlobals()
 	startNet()
+	only := os.Getenv("C12_MODES") // development aid: comma-separated subset of modes
 	for _, m := range modes {
 		m := m
+		if only != "" && !strings.Contains(","+only+",", ","+m.name+",") {
+			continue
+		}
 		r.ForTrials(m.name, r.N(m.quick, m.thorough), func(trial int, rng *rand.Rand) {
 			m.run(r, m.name, trial, rng)
 		})
